@@ -11,9 +11,10 @@ from bctmc import oracles as orc
 from bctmc import named
 from bctmc.runner import guarded
 from bctmc.tally import Tally
+from bctmc import dtypes
 
 PROPERTY = 'C08'
-RULE = ('every free tree on 8-9 nodes under the scan orders of bctmc/trees.py (3354 labelled trees, 0/1); the structured 7-10 node family of bctmc/named.py (binary, lengths {1,2},{1,2,3}, near-tie) and all binary digraphs n<=4 and graphs n<=5; lengths {1,2} on 4-node graphs and 3-node digraphs, {1,2,3} and the near-tie alphabet {1,2,2+2^-20} on 3-node '
+RULE = ('element types: every routine also on int64 / int32 / uint8 / bool copies of all 3-node digraphs over {0,1} and {0,1,2}, 4-node graphs over {0,1,2}, 5-node binary graphs (same values as for float64; integers must not raise, a boolean matrix may be rejected with TypeError); every free tree on 8-9 nodes under the scan orders of bctmc/trees.py (3354 labelled trees, 0/1); the structured 7-10 node family of bctmc/named.py (binary, lengths {1,2},{1,2,3}, near-tie) and all binary digraphs n<=4 and graphs n<=5; lengths {1,2} on 4-node graphs and 3-node digraphs, {1,2,3} and the near-tie alphabet {1,2,2+2^-20} on 3-node '
         'digraphs and binary graphs n=6 (thorough: lengths {1,2} on all 4-node digraphs and 5-node graphs); non-trivial = '
         'graph with a source-target pair joined by >= 2 distinct shortest paths, or with an unreachable ordered pair while '
         'some pair is >= 2 hops apart')
@@ -35,6 +36,12 @@ FAMILIES = {
 NAMED = ('named:bintree_und', 'named:bin_und', 'named:bin_dir', 'named:len_und', 'named:len_dir', 'named:neartie_und')
 
 
+ETYPE_FUNCS = [
+    ('betweenness_bin', bct.betweenness_bin, None), ('betweenness_wei', bct.betweenness_wei, None),
+    ('edge_betweenness_bin', bct.edge_betweenness_bin, None), ('edge_betweenness_wei', bct.edge_betweenness_wei, None),
+]
+
+
 def plan(ctx):
     units = []
     for nm in NAMED:
@@ -47,6 +54,7 @@ def plan(ctx):
         tot = ss.dir_count(n, alpha) if directed else ss.und_count(n, alpha)
         for (a, b) in ss.ranges(tot, max(1, min(800, tot // 40))):
             units.append((name, a, b))
+    units += dtypes.units(dtypes.STD_FAMILIES)
     return units
 
 
@@ -98,6 +106,8 @@ def check_case(t, X, case, binary):
 
 
 def work(unit):
+    if unit[0] == 'etype':
+        return dtypes.work_unit(PROPERTY, ETYPE_FUNCS, unit)
     name, a, b = unit
     t = Tally(PROPERTY)
     if name in NAMED:
@@ -120,6 +130,8 @@ def work(unit):
 
 
 def replay(rec):
+    if rec['case'].get('family') == 'element_types':
+        return dtypes.replay(PROPERTY, ETYPE_FUNCS, rec['case'])
     t = Tally(PROPERTY)
     c = rec['case']
     check_case(t, np.array(c['X'], dtype=float), c, ('bin' in c['family']) if c['family'].startswith('named') else FAMILIES[c['family']][2] == BIN)
